@@ -1124,6 +1124,8 @@ def run(components=None, broker=None):
     # ./meta_data directory are prepopulated in the broker as Specs so
     # no need to collect them again
     if broker.get(SerializedArchiveContext) is not None:
+        # prune a copy: the graph may be the caller's or a registered group
+        components = dict(components)
         for comp in list(components):
             if comp in broker:
                 for dep in components[comp]:
